@@ -39,6 +39,11 @@ class HT:
     def __gt__(self, o): return self._skey() > (o._skey() if isinstance(o, HT) else repr(o))
     def __le__(self, o): return not self.__gt__(o)
     def __ge__(self, o): return not self.__lt__(o)
+    # equal arguments have equal hashes (needed when the code under test puts hashes into a set or uses them as dict keys);
+    # two symbolic tokens are equal only if they are the same token
+    def __eq__(self, o): return isinstance(o, HT) and repr(self) == repr(o)
+    def __ne__(self, o): return not self.__eq__(o)
+    def __hash__(self): return hash(repr(self))
 
 
 class Concretised(Exception):
@@ -89,6 +94,8 @@ def eq_formula(a, b, ids):
     if isinstance(a, HT) or isinstance(b, HT):
         # ideal hash values are distinct from non-hash leaves (64-bit coincidences are outside the claim)
         return z3.BoolVal(False)
+    if isinstance(a, (set, frozenset)) and isinstance(b, (set, frozenset)):
+        a = tuple(sorted(a, key=repr)); b = tuple(sorted(b, key=repr))
     if isinstance(a, tuple) and isinstance(b, tuple):
         if len(a) != len(b): return z3.BoolVal(False)
         return z3.And(*[eq_formula(x, y, ids) for x, y in zip(a, b)]) if a else z3.BoolVal(True)
@@ -271,6 +278,27 @@ def templates(vf):
         V, u, v = base(); f = V.input('f')
         V.add(f * (u.dx(0) * v if tok == 0 else u * v.dx(0)) * vf.dx); return V
     add('derivative on trial vs test function', [0, 1], mk, lambda V: 'structural')
+    # multiplicity of a term: the same expression added once or twice
+    def mk(tok, ctx):
+        V, u, v = base(); f = V.input('f')
+        for _ in range(1 + tok): V.add(f * u * v * vf.dx)
+        return V
+    add('multiplicity of a repeated term', [0, 1], mk, lambda V: 'structural')
+    def mk(tok, ctx):
+        V, u, v = base()
+        V.add(u * v * vf.dx)
+        for _ in range(1 + tok): V.add(vf.inner(vf.grad(u), vf.grad(v)) * vf.dx)
+        return V
+    add('multiplicity of the second of two terms', [0, 1], mk, lambda V: 'structural')
+    # history on one form object: hash taken, then another term added (the library may refuse the add; if it accepts it the key must change)
+    def mk(tok, ctx):
+        V, u, v = base()
+        V.add(u * v * vf.dx)
+        if tok:
+            V.hash()
+            V.add(vf.inner(vf.grad(u), vf.grad(v)) * vf.dx)
+        return V
+    add('term added after the hash was taken', [0, 1], mk, lambda V: 'structural')
     return T
 
 
@@ -287,8 +315,12 @@ def slot_query(tpl, vf, asm_cache_args, ctx):
         s = z3.Solver(); s.add(L != L2, tpl['domain'](L), tpl['domain'](L2), eq_formula(k1, k2, ids))
         return [('compile cache key / on_demand', str(s.check()))]
     if slots == 'structural':
-        Va = tpl['make'](tpl['values'][0], ctx); Vb = tpl['make'](tpl['values'][1], ctx)
-        s = z3.Solver(); s.add(eq_formula(form_key(Va, False, asm_cache_args), form_key(Vb, False, asm_cache_args), ids))
+        try:
+            Va = tpl['make'](tpl['values'][0], ctx); Vb = tpl['make'](tpl['values'][1], ctx)
+        except RuntimeError as e:
+            return [('structure (variant refused by the library: %s)' % str(e)[:60], 'unsat')]
+        # (the memoised hash of the object is used as the library would use it: no reset)
+        s = z3.Solver(); s.add(eq_formula((Va.hash(), asm_cache_args(False)), (Vb.hash(), asm_cache_args(False)), ids))
         return [('structure', str(s.check()))]
     if not slots:
         raise RuntimeError('template %s: token slot not found in the form' % tpl['name'])
